@@ -316,7 +316,7 @@ class Judge:
             for fname, ob, at in fs:
                 if u.meta.get("emitcase"):
                     continue        # reported by the EmitModel replay with the deviation the model names
-                if ob == "CallArgsMatchCallee" and u.kind == "mutant" and UNPROTO.search(u.src):
+                if ob == "CallArgsMatchCallee" and u.kind in ("mutant", "tour") and UNPROTO.search(u.src):
                     self.excluded["call_unprototyped"] += 1
                     continue
                 det = detail_of(ob, at, u, fname)
@@ -393,8 +393,39 @@ PINNED = [   # the minimal failing input of every known finding (so that the fin
 ]
 
 
+def rejected_family():
+    """Inputs the unchanged compiler rejects (status != 0 is fine for C03: the property only speaks when the status is 0,
+    but a change that makes them accepted must then print well-formed IL).  One declaration per unit, because a
+    diagnostic ends the whole unit: casts of address constants to narrower integer types in static initializers."""
+    out = []
+    pre = "int y; struct S { char c; int i; } s; enum E { A, B };\n"
+    for ty in ("_Bool", "char", "short", "int", "unsigned", "enum E", "long", "unsigned char"):
+        tn = ty.replace(" ", "_")
+        out.append(("addrcast-scalar-" + tn, pre + "%s x = (%s)&y;\n" % (ty, ty)))
+        out.append(("addrcast-member-" + tn, pre + "struct T { char tag; %s lo; char end; } t = {1, (%s)&s.i, 2};\n" % (ty, ty)))
+        out.append(("addrcast-element-" + tn, pre + "%s a[3] = {1, (%s)&y, (%s)(&s.i + 1)};\n" % (ty, ty, ty)))
+        out.append(("addrcast-static-" + tn, pre + "int f(void) { static %s x = (%s)&y; static struct { %s m; long n; } z = {(%s)&s, 3}; return (int)x + (int)z.n; }\n" % (ty, ty, ty, ty)))
+    return out
+
+
 def pinned_units(targets):
-    return [Unit("pinned:%s@%s" % (n, t), "pinned", src, t) for n, src in PINNED for t in targets]
+    fam = PINNED + rejected_family()
+    return [Unit("pinned:%s@%s" % (n, t), "pinned", src, t) for n, src in fam for t in targets]
+
+
+def tour_units(ctx, targets):
+    """A slice of the one-edit neighbourhood (Mutate.tla, exhaustive) of harness/tour.c: most are rejected, every exit-0
+    output is judged.  quick: every 8th neighbour (rotating with the seed); thorough: all of them."""
+    import mutate
+    path = os.path.join(vlib.VERIF, "harness", "tour.c")
+    if not os.path.exists(path) or not hasattr(mutate, "neighbourhood"):
+        return []
+    nb = mutate.neighbourhood(ctx, path)
+    step = 8 if ctx.quick else 1
+    off = ctx.seed % step
+    units = [Unit("tour:%d" % i, "tour", src, targets[0], {"mutation": descr}) for i, (src, descr) in enumerate(nb) if i % step == off]
+    ctx.cov["tour_neighbourhood"] = len(nb)
+    return units
 
 
 def stored_qbe_audit(ctx, judge):
@@ -745,6 +776,7 @@ def run(ctx):
                 if t != u.target:
                     units.append(Unit(u.id + "@" + t, "corpus", u.src, t))
     units += pinned_units(targets)
+    units += tour_units(ctx, targets)
     units += generated_units(ctx, targets)
     units += mutant_units(ctx, targets)
     tr = ctx.path("tr")
